@@ -282,3 +282,19 @@ Definition check_case (c : case) : bool :=
     forallb (fun it => lres_eqb (base_encode alphabet (fst it)) (snd it)) items
   | CGens gens => forallb check_gcase gens
   end.
+
+(* ---------------------------------------------------------------- process-level view *)
+
+(* A default numeric generator living in one process (made by `unique_id`,
+   `UniqueId.unique_id` or `UniqueId.NumericIdGenerator` without a template): its id mode, pid,
+   context number, first index and the number of values drawn from it so far. *)
+Record dgen := mkDgen { d_big : bool; d_pid : list Z; d_ctx : Z; d_start : Z; d_n : nat }.
+
+Definition dgen_draws (mask : Z -> Z -> Z) (nbits : Z -> Z) (g : dgen) : list (result Z) :=
+  map (fun i => num_value mask nbits (default_numeric_tpl (d_big g)) (d_pid g) (d_ctx g) i true)
+      (Zseq (d_start g) (d_n g)).
+
+(* every value drawn in the process, generator by generator (the order is irrelevant for
+   pairwise distinctness) *)
+Definition process_draws (mask : Z -> Z -> Z) (nbits : Z -> Z) (gens : list dgen)
+  : list (result Z) := flat_map (dgen_draws mask nbits) gens.
